@@ -320,16 +320,10 @@ func checksSort() {
 				seqs(vals, rk, func(in []string) { sliceOne(t, c, in) })
 			}
 		})
-	check("sort.Slice / sort.SliceStable, comparators that depend on the INDEXES themselves (not only on x[i], x[j]); the obligations are stated over indexes, so such comparators can pass them",
-		[]contract{intr}, fmt.Sprintf(`all slices over {"a" "b" "c"} up to length %d; comparators i < j, i > j, and x[i] < x[j] || (x[i] == x[j] && i < j)`, rk), func(t *T) {
-			for _, c := range []cmp{
-				{"i < j", func(x []string, i, j int) bool { return i < j }, false},
-				{"i > j", func(x []string, i, j int) bool { return i > j }, false},
-				{"x[i] < x[j] || (x[i] == x[j] && i < j)", func(x []string, i, j int) bool { return x[i] < x[j] || (x[i] == x[j] && i < j) }, false},
-			} {
-				seqs([]string{"a", "b", "c"}, rk, func(in []string) { sliceOne(t, c, in) })
-			}
-		})
+	// Comparators that use their index parameters other than as subscripts of the sorted slice (i < j, i > j,
+	// x[i] < x[j] || (x[i] == x[j] && i < j)) are OUT OF FRAGMENT in the engine since this validator showed that
+	// `i > j` passes the index-wise strict-weak-order obligations without being an order on values
+	// (gocv: comparatorUsesIndexesOnlyAsSubscripts). Nothing is modelled for them, so nothing is validated here.
 
 	// ---- slices.Clone / slices.Equal (C16.spec)
 	cClone := contract{"C16.spec", "slices", "Clone", 63, []string{`r == s`}}
